@@ -115,6 +115,11 @@ func runC01(ctx *core.Ctx, idx int) *core.Result {
 			res.Ob("patterns:abstracted-from-code:"+ac.Kind, 1)
 		}
 	}
+	if idx%6 == 5 {
+		if runC01Corpus(ctx, idx, res, g) {
+			return res
+		}
+	}
 	if idx%7 == 3 {
 		// the patch also adds an import (files without an import declaration get a new declaration in front)
 		withAddedImport(c)
@@ -129,4 +134,42 @@ func runC01(ctx *core.Ctx, idx int) *core.Result {
 	}
 	semBatch(ctx, idx, res, c, srcs, extra, idx%8 == 0, "C01")
 	return res
+}
+
+// runC01Corpus abstracts a pattern from a fragment of a real source file (standard library)
+// and applies it to that file and two others: the fragment itself is an instance, whatever
+// else matches is for the reference to say.
+func runC01Corpus(ctx *core.Ctx, idx int, res *core.Result, g *gen.G) bool {
+	files := Corpus()
+	if len(files) == 0 {
+		return false
+	}
+	r := g.R
+	kind := []string{"expr", "stmts", "decl"}[(idx/6)%3]
+	for try := 0; try < 8; try++ {
+		b, err := os.ReadFile(files[r.Intn(len(files))])
+		if err != nil || !gen.Parses(string(b)) || len(b) > 60_000 {
+			continue
+		}
+		fr := g.CorpusFragment(kind, b)
+		if fr == "" {
+			continue
+		}
+		c := g.AbstractFrom(kind, fr)
+		if c == nil {
+			continue
+		}
+		srcs := []string{string(b)}
+		extra := []string{"corpus-origin"}
+		for len(srcs) < 3 {
+			if b2, err := os.ReadFile(files[r.Intn(len(files))]); err == nil && gen.Parses(string(b2)) && len(b2) < 60_000 {
+				srcs = append(srcs, string(b2))
+				extra = append(extra, "corpus-other")
+			}
+		}
+		res.Ob("patterns:abstracted-from-corpus:"+kind, 1)
+		semBatch(ctx, idx, res, c, srcs, extra, idx%48 == 5, "C01")
+		return true
+	}
+	return false
 }
